@@ -14,6 +14,7 @@
 //	seqs                                          sequence log                  -> A<id> D<id> ... last=<n>
 //	seqof <id>                                    hash->sequence                -> <n>|none
 //	isorphan <id>                                 orphan pool membership        -> yes|no
+//	tx <tag>                                      transaction index lookup      -> <height>|none
 //	end                                           predicates, close node        -> ok
 //
 // Block ids are tree indices (0 = genesis).  Predicates evaluated on the implementation itself:
@@ -172,6 +173,23 @@ func (e *env) run(line string) string {
 	}
 	if !e.ensureTree() {
 		return "bad-op"
+	}
+	if w[0] == "tx" {
+		if len(w) != 2 {
+			return "bad-op"
+		}
+		tag, ok := atoi(w[1])
+		if !ok || tag < 0 {
+			return "bad-op"
+		}
+		tx := e.tree.Tx(tag)
+		if tx == nil {
+			return "none"
+		}
+		if h := e.node.TxHeight(tx.Hash()); h >= 0 {
+			return fmt.Sprint(h)
+		}
+		return "none"
 	}
 	arg := func() (int, bool) {
 		if len(w) != 2 {
@@ -470,6 +488,16 @@ func (c *tcase) lines() []string {
 		}
 		ls = append(ls, fmt.Sprintf("blk %d %d %d %d %d %s", i, b.parent, b.height, chainkit.BitsForWork(b.work), b.salt, tx))
 	}
+	tagSet := map[int]bool{}
+	var tags []int
+	for i := 1; i < len(c.blocks); i++ {
+		for _, t := range c.blocks[i].txs {
+			if !tagSet[t] {
+				tagSet[t] = true
+				tags = append(tags, t)
+			}
+		}
+	}
 	for _, id := range c.order {
 		ls = append(ls, fmt.Sprintf("deliver %d", id))
 		if c.each {
@@ -477,9 +505,18 @@ func (c *tcase) lines() []string {
 			if c.rec {
 				ls = append(ls, "seqs")
 			}
+			for _, t := range tags {
+				if bs := c.blocks[id]; t/4 >= bs.height-1 { // only tags near the delivered height
+					ls = append(ls, fmt.Sprintf("tx %d", t))
+				}
+			}
 		}
 	}
 	ls = append(ls, "chain")
+	for _, t := range tags {
+		ls = append(ls, fmt.Sprintf("tx %d", t))
+	}
+	ls = append(ls, "tx 99999")
 	for i := 0; i < len(c.blocks); i++ {
 		ls = append(ls, fmt.Sprintf("td %d", i))
 		ls = append(ls, fmt.Sprintf("isorphan %d", i))
